@@ -95,6 +95,25 @@ CHECKS = {
                      "Tsc clock and more cycles are sampled. The parent checks after waitpid that every statement whose call returned before the action is in its file "
                      "once and in order, notices follow, exit status / terminating signal are right.",
                 note="out of process there is no logical clock: a 120 s watchdog (1000x the normal duration) with one re-run decides hangs"),
+    "C04": dict(cat="exploration", ref="6/C04", tech="runtime monitoring: differential of the backend's message against call-site formatting over a catalogue of argument shapes with post-call argument destruction; codec-level size/canary checks; ASan+UBSan",
+                text="90 argument type lists (all arithmetic widths, enums, pointers, C strings incl. null, terminated/unterminated char arrays, strings/views with "
+                     "embedded NUL and non-printables, every quill/std container, optional/pair/tuple/chrono/path, deferred and direct user types, nested, 12-14 "
+                     "variable-length args) driven with random values. End to end: expected text computed BEFORE the call, arguments overwritten/cleared/freed "
+                     "after it, then the backend runs; sentinel statement after each. Codec level: computed size = written = consumed, canaries intact. Found "
+                     "and repaired null-pointer memcpy UB.",
+                note="types and format strings are compile-time: coverage is a catalogue, not every program; bundled fmt is the trusted formatter"),
+    "C11": dict(cat="exploration", ref="6/C11", tech="runtime monitoring: thread-local allocation counters in interposed malloc/mmap armed around each log call; thread id recorded inside user formatters",
+                text="Same catalogue with a real backend thread: after preallocate()/warm-up every log call of a shape in the property's class must perform 0 heap "
+                     "allocations and 0 mmaps on the caller (symbols interposed in the executable, no hook), for direct log_statement calls and the library's macro "
+                     "families; deferred-format user types must be formatted on the backend thread only, direct-format ones at the call site. Found and "
+                     "repaired: map codecs copied every element on the caller.",
+                note="non-sanitizer builds only (the interposer cannot coexist with ASan/TSan allocators)"),
+    "C19": dict(cat="exploration", ref="6/C19", tech="runtime monitoring: per-statement differential of message/key-value pairs against each template's construction data; JSON lines parsed with Python's json against sidecar expectations",
+                text="29 named-argument templates (escaped braces next to/around/after placeholders, specs, 1..26 arguments, newline, LOGJ_ forms) each carrying its "
+                     "positional form, names and specs; first-use order shuffled per seed (template cache). Recording sink: message and ordered pairs; JsonFileSink "
+                     "file: one object per line, parses, fixed fields, original template as message, pairs in order. Found and repaired the '}}'-after-placeholder "
+                     "scanner defect.",
+                note="values need no JSON/hex escaping by construction"),
 }
 
 NOT_YET = "check not built yet in this revision (design in DESIGN.md section 6); not claimed until its harness exists"
